@@ -85,8 +85,11 @@ def fuzz_and_validate(prop, tier, seed, verdict, cov):
                 a, b = vlib.run_of_record(recs, idx)
                 payload = dict(kind="fuzz-broker", driver_args=[str(x) for x in args], record_index=idx,
                                run_first_record=a + 1, trace=recs[a:b], violated_at=recs[idx - 1])
-                if p == prop or (prop == "C11" and why.startswith("panic")):
-                    verdict.violation(why, payload, site=json.dumps(recs[idx - 1].get("m", {}))[:200])
+                # C11: "other connections are affected only in the ways the protocol defines" is the conjunction of
+                # the other observers on arbitrary traffic, whenever the affected party is not the sender itself
+                c11 = prop == "C11" and (why.startswith("panic") or "(to another connection)" in why)
+                if prop in p.split("+") or c11:
+                    verdict.violation(why if prop in p.split("+") else f"{why} [clause of {p}]", payload, site=json.dumps(recs[idx - 1].get("m", {}))[:200])
                 else:
                     verdict.note(f"violation of {p} observed while checking {prop}: {why} ({profile}, seed {s}, record {idx})")
             # conformance level: the same trace against the implementation-shaped specification
@@ -119,7 +122,7 @@ def real_clients(prop, tier, seed, verdict, cov):
     for (idx, p, why) in res["violations"]:
         recs = recs or vlib.read_ndjson(bpath)
         a, b = vlib.run_of_record(recs, idx)
-        if p == prop or (prop == "C11" and why.startswith("panic")):
+        if prop in p.split("+") or (prop == "C11" and why.startswith("panic")):
             verdict.violation(why, dict(kind="bus-programs-broker", driver_args=[str(x) for x in args], record_index=idx,
                                         trace=recs[a:b], violated_at=recs[idx - 1]))
         else:
@@ -134,7 +137,7 @@ def real_clients(prop, tier, seed, verdict, cov):
     for (idx, p, why) in cres["violations"]:
         crecs = crecs or vlib.read_ndjson(cpath)
         a, b = vlib.run_of_record(crecs, idx)
-        if p == prop:
+        if prop in p.split("+"):
             verdict.violation(why, dict(kind="bus-programs", driver_args=[str(x) for x in args], record_index=idx,
                                         trace=[r for r in crecs[a:b] if r.get("t") != "tap"][:400], violated_at=crecs[idx - 1]))
         else:
@@ -178,7 +181,7 @@ def client_versions(prop, tier, seed, verdict, cov):
     cov["client_version_payloads"] = sum(1 for r in recs if r.get("t") == "tap" and r.get("dir") == "rx" and r["m"].get("val", 0) != 0 and r.get("ver", 20) < 20)
     for (idx, p, why) in res["violations"]:
         a, b = vlib.run_of_record(recs, idx)
-        if p == prop:
+        if prop in p.split("+"):
             verdict.violation(why, dict(kind="bus-programs", driver_args=[str(x) for x in args], record_index=idx,
                                         trace=[r for r in recs[a:b] if r.get("t") != "tap"][:300], violated_at=recs[idx - 1]))
         else:
@@ -186,7 +189,7 @@ def client_versions(prop, tier, seed, verdict, cov):
     bres = vlib.tlc_trace("Trace_Obs.tla", "Trace_Obs.cfg", bpath)
     brecs = None
     for (idx, p, why) in bres["violations"]:
-        if p == prop:
+        if prop in p.split("+"):
             brecs = brecs or vlib.read_ndjson(bpath)
             a, b = vlib.run_of_record(brecs, idx)
             verdict.violation(why, dict(kind="bus-programs-broker", driver_args=[str(x) for x in args], record_index=idx, trace=brecs[a:b]))
@@ -279,7 +282,7 @@ def replay(prop, path, seed):
         vlib.run_driver("fuzz-broker", args)
         res2 = vlib.tlc_trace("Trace_Obs.tla", "Trace_Obs.cfg", out)
         recs = vlib.read_ndjson(out)
-        hits = [(i, p, w) for (i, p, w) in res2["violations"] if p == prop or (prop == "C11" and w.startswith("panic"))]
+        hits = [(i, p, w) for (i, p, w) in res2["violations"] if prop in p.split("+") or (prop == "C11" and w.startswith("panic"))]
         log(f"re-run of the recorded driver invocation on the current tree: {len(hits)} violation(s) of {prop}")
         for (idx, p, why) in hits:
             a, b = vlib.run_of_record(recs, idx)
@@ -296,7 +299,7 @@ def replay(prop, path, seed):
             res = vlib.tlc_trace(spec, cfgf, path)
             recs = vlib.read_ndjson(path)
             for (idx, p, why) in res["violations"]:
-                if p == prop:
+                if prop in p.split("+"):
                     a, b = vlib.run_of_record(recs, idx)
                     verdict.violation(why, dict(kind=data["kind"], driver_args=args, record_index=idx, trace=recs[a:b][:400]))
         log(f"re-run of the recorded driver invocation on the current tree: {verdict.violations} violation(s) of {prop}")
